@@ -103,8 +103,7 @@ class DiscoverSubcircuits(UsedQubitIndicesVisitor):
         # far too inflexible for the purposes here.
         indices = defaultdict(set)
 
-        count = len(self.subcircuits)
-        had_started = self.current is not None
+        entry = self.current
 
         # XXX: using a trace restriction here is untested
         for n, stmt in self.trace_statements(block.statements):
@@ -112,7 +111,10 @@ class DiscoverSubcircuits(UsedQubitIndicesVisitor):
                 indices, self.visit(stmt, context=context), disjoint=block.parallel
             )
 
-        if had_started and (reps > 1) and (len(self.subcircuits) != count):
+        # Only the subcircuit that was open when the loop body began matters:
+        # if a prepare_all inside the body replaced it, the subcircuits closed
+        # in the body were also opened in the body.
+        if (entry is not None) and (reps > 1) and (entry.end is not None):
             raise JaqalError("measure_all -> prepare_all not supported in loops")
 
         return indices
